@@ -29,6 +29,13 @@ class Universe:
         self.L = [M.Link(1 + i, 2, 1.0, 180.0, 33.0, 100.0, 1.8, name=ln[i]) for i in range(3)]
         self.O = [M.MeteredOnRamp(2000.0, name="Oa"), M.Origin(name="Oa" if clash else "Ob")]
         self.D = [M.Destination(name="Da"), M.CongestedDestination(name="Da" if clash else "Db")]
+        self._side = None
+
+    def side(self):
+        """The second network of the current history (filled by streaming generators)."""
+        if self._side is None:
+            self._side = self.M.Network(name="side")
+        return self._side
 
 
 def reading(net, items, which=None):
@@ -61,6 +68,17 @@ def building(net, items, nested):
         yield it
 
 
+def streaming_two(net, side, method, items, side_items):
+    """A lazy iterable that builds a SECOND network with the same construction call while the first one consumes it,
+    reading the first one's lookups as it goes (one pass over a road table that fills a detailed and a coarse network)."""
+    for i, it in enumerate(items):
+        for m in netmon.MEMOS:
+            getattr(net, m)
+        if i < len(side_items):
+            getattr(side, method)(side_items[i])
+        yield it
+
+
 def alphabet(U):
     """~60 mutating calls as (kind, callable(net), description)."""
     N, L, O, D = U.N, U.L, U.O, U.D
@@ -75,6 +93,14 @@ def alphabet(U):
     ops.append(("add_path", lambda net: net.add_path(building(net, (N[0], L[0], N[1], L[1], N[2]),
                                                               [lambda n_: None, lambda n_: None, lambda n_: n_.add_path((N[1], L[2], N[0]), origin=O[0])])),
                 ("add_path", "generator that lays another path meanwhile")))
+    ops.append(("add_links", lambda net: net.add_links(streaming_two(net, U.side(), "add_links", [(N[0], L[0], N[1]), (N[1], L[1], N[2])],
+                                                                     [[(N[0], L[2], N[2])], [(N[2], L[0], N[1])]])),
+                ("add_links", "generator filling a second network with add_links meanwhile")))
+    ops.append(("add_nodes", lambda net: net.add_nodes(streaming_two(net, U.side(), "add_nodes", [N[0], N[1], N[2]], [[N[2]], [N[0]]])),
+                ("add_nodes", "generator filling a second network with add_nodes meanwhile")))
+    ops.append(("add_path", lambda net: net.add_path(streaming_two(net, U.side(), "add_path", (N[0], L[0], N[1], L[1], N[2]),
+                                                                   [(N[1], L[2], N[2]), (N[2], L[2], N[0])])),
+                ("add_path", "generator laying a path in a second network meanwhile")))
     ops.append(("add_nodes!", lambda net: net.add_nodes(reading_then_failing(net, [N[0], N[1]], "raise")),
                 ("add_nodes", "reading generator that raises after 0,1")))
     ops.append(("add_links!", lambda net: net.add_links(reading_then_failing(net, [(N[0], L[0], N[1]), (N[1], L[1], N[2])], "raise")),
@@ -150,6 +176,7 @@ def run_history(M, rec, U, ops, seq, rng, read_all=True):
         net = UK.Motorway()  # a user-defined Network subclass: the lookups are inherited
         rec.count("histories_on_a_network_subclass")
     netmon.new_history()
+    U._side = None
     for kind, fn, desc in seq:
         before = [m for m in netmon.MEMOS if m in net.__dict__]
         netmon.set_last_op(desc)
@@ -169,6 +196,9 @@ def run_history(M, rec, U, ops, seq, rng, read_all=True):
             netmon.check_lookups(M, net, rec, PROP, sub, desc)
     # final read-all
     netmon.check_lookups(M, net, rec, PROP, None, ("final",))
+    if U._side is not None:
+        rec.count("second_networks_filled_meanwhile")
+        netmon.check_lookups(M, U._side, rec, PROP, None, ("second network",))
     if not read_all and rng.random() < 0.25:
         # a deep copy / pickle round-trip (memoised lookups travel with it) is a network of its own
         import copy
